@@ -56,8 +56,11 @@ def run_deductive(functions, tier):
         return []
     # one process per function; a hard wall-clock limit per function (a stuck solver must not hang the check: it becomes a
     # checker error / undecided, never a verdict)
-    limit = 900 if tier == "quick" else 5400
-    pool = mp.Pool(min(16, len(jobs)))
+    # (solver budgets are deterministic resource limits, so the work per function is bounded whatever the load; the wall-clock
+    # limit is generous on purpose: a loaded machine must not turn into a verdict).  One fresh process per function: the z3
+    # context of a function's queries does not depend on which functions the worker verified before.
+    limit = 3600 if tier == "quick" else 6 * 3600
+    pool = mp.Pool(min(16, len(jobs)), maxtasksperchild=1)
     try:
         asyncs = [(job, pool.apply_async(_verify_one, (job,))) for job in jobs]
         out = []
@@ -237,6 +240,10 @@ def check_property(pid, tier):
                     violations.append((write_replay(pid, payload), o["name"], case is not None))
             else:
                 key = obligation_key(o)
+                if "wall-clock safety net" in o["note"]:
+                    # the machine, not the code: never a verdict
+                    undecided.append(o["name"] + " :: solver interrupted by the wall-clock safety net :: " + o["note"][:100])
+                    continue
                 fail_count[o["func"]] = fail_count.get(o["func"], 0) + 1
                 if key in baseline and fail_count[o["func"]] > 3:
                     more_failed.append(o["name"])
